@@ -49,6 +49,7 @@ def cases(tier, seed):
                    stall=rnd.random() < 0.2, maxlen=rnd.choice([64, 256, 16384]),
                    dest=rnd.choice(['real', 'real', 'real', 'never-answers-release', 'unknown',
                                     'refused']),
+                   dup_ctx=rnd.random() < 0.25,
                    seed=seed * 100003 + i)
 
 
@@ -153,7 +154,10 @@ def _get(case):
                 state['final_sent'] = True
                 return
             s = subs[i]
-            ctx = [c for c in peer.rq['contexts'] if c[1] == s['sop']][0][0]
+            # (a storage class may have been negotiated on more than one context: the request
+            # goes out on any of them and must be answered THERE)
+            cands = [c for c in peer.rq['contexts'] if c[1] == s['sop']]
+            ctx = cands[(i + case['seed']) % len(cands)][0]
             s['pcid'] = ctx
             pend = case['pending']
             if pend == 'after-each' or (pend == 'random' and rnd.random() < 0.5):
@@ -203,6 +207,14 @@ def _get(case):
         if case['in_file']:
             store_user.store_in_file = True
         cli.add_scu(store_user)
+        if case.get('dup_ctx'):
+            # the application put a second presentation context for the same storage classes
+            # into the entity's (public) context table
+            from pynetdicom2 import asceprovider as _ap
+            nxt = max(cli.context_def_list) + 2
+            for sop_ in (CT, MR):
+                cli.context_def_list[nxt] = _ap.PContextDef(nxt, sop_, [rc.IMPLICIT_LE])
+                nxt += 2
         got = []
         got2 = []
         out = {}
